@@ -49,7 +49,7 @@ func genC04() error {
 		}
 		return false
 	}
-	var cb, mb strings.Builder
+	var cb, mb, mf strings.Builder
 	var cNot, mNot []string
 	// ---- constants
 	constIface := cp.Scope().Lookup("Constant").Type().Underlying().(*types.Interface)
@@ -152,6 +152,7 @@ func genC04() error {
 		}
 		nm++
 		fmt.Fprintf(&mb, "\tcase *metadata.%s:\n\t\tif x == nil {\n\t\t\treturn true\n\t\t}\n", name)
+		fmt.Fprintf(&mf, "\tcase *metadata.%s:\n\t\tif x == nil {\n\t\t\treturn nil\n\t\t}\n", name)
 		if hasID {
 			fmt.Fprintf(&mb, "\t\tif !w.enterMD(x, int64(x.MetadataID)) {\n\t\t\treturn true\n\t\t}\n")
 		}
@@ -165,8 +166,10 @@ func genC04() error {
 			case isMDLike(ft):
 				if _, isPtr := ft.(*types.Pointer); isPtr {
 					fmt.Fprintf(&mb, "\t\tif x.%s != nil {\n\t\t\tw.md(x.%s)\n\t\t}\n", f.Name(), f.Name())
+					fmt.Fprintf(&mf, "\t\tif x.%s != nil {\n\t\t\tr = append(r, x.%s)\n\t\t}\n", f.Name(), f.Name())
 				} else {
 					fmt.Fprintf(&mb, "\t\tw.md(x.%s)\n", f.Name())
+					fmt.Fprintf(&mf, "\t\tif x.%s != nil {\n\t\t\tr = append(r, x.%s)\n\t\t}\n", f.Name(), f.Name())
 				}
 			case isValueLike(ft):
 				fmt.Fprintf(&mb, "\t\tw.value(x.%s)\n", f.Name())
@@ -176,6 +179,7 @@ func genC04() error {
 				if sl, ok := ft.(*types.Slice); ok {
 					if isMDLike(sl.Elem()) {
 						fmt.Fprintf(&mb, "\t\tfor _, e := range x.%s {\n\t\t\tw.md(e)\n\t\t}\n", f.Name())
+						fmt.Fprintf(&mf, "\t\tfor _, e := range x.%s {\n\t\t\tr = append(r, e)\n\t\t}\n", f.Name())
 						continue
 					}
 					if isValueLike(sl.Elem()) {
@@ -193,6 +197,7 @@ func genC04() error {
 			}
 		}
 		mb.WriteString("\t\treturn true\n")
+		mf.WriteString("\t\treturn r\n")
 	}
 	var sb strings.Builder
 	sb.WriteString("//go:build verif\n\n// Code generated by vcheck gen (L2) from go/types of /repo; DO NOT EDIT.\n\npackage asm\n\nimport (\n\t\"github.com/llir/llvm/ir/constant\"\n\t\"github.com/llir/llvm/ir/metadata\"\n)\n\n")
@@ -202,6 +207,9 @@ func genC04() error {
 	sb.WriteString("// hWalkMD descends into the fields of a metadata node; false if a is not one\n// of the node kinds known to the generator.\nfunc hWalkMD(w *hWalk, a interface{}) bool {\n\tswitch x := a.(type) {\n")
 	sb.WriteString(mb.String())
 	sb.WriteString("\t}\n\treturn false\n}\n\n")
+	sb.WriteString("// hMDFields lists the values of the fields of a metadata node that can hold\n// other metadata (direct children, nil fields left out).\nfunc hMDFields(a interface{}) []interface{} {\n\tvar r []interface{}\n\tswitch x := a.(type) {\n")
+	sb.WriteString(mf.String())
+	sb.WriteString("\t}\n\treturn r\n}\n\n")
 	sort.Strings(cNot)
 	sort.Strings(mNot)
 	fmt.Fprintf(&sb, "// %d constant kinds, %d metadata node kinds.\n// constant fields not descended into: %s\n// metadata fields not descended into: %s\n", nc, nm, strings.Join(cNot, ", "), strings.Join(mNot, ", "))
